@@ -450,7 +450,16 @@ func runSave(c *core.Ctx) {
 						// whole-index store of a value produced by a shared store function (the collector)
 						if call, _ := an.CallOf(an.Origin(x.Val)); call != nil {
 							if sc := call.Call.StaticCallee(); sc != nil && r.FamilyOfFunc(sc) == nil && core.FuncPkgPath(sc) == r.StorePath {
-								muts = append(muts, x)
+								// …that works on an index it is given (a function that only builds a fresh, empty index is a constructor)
+								takesIndex := false
+								for _, p := range sc.Params {
+									if isNamedType(an.Deref(p.Type()), r.TypesPath, "Index") {
+										takesIndex = true
+									}
+								}
+								if takesIndex {
+									muts = append(muts, x)
+								}
 							}
 						}
 					}
